@@ -68,9 +68,17 @@ func (s *swallow) HandleException(ctx netty.ExceptionContext, ex netty.Exception
 
 // message builds the outbound message of writer w for the carrier and returns the bytes expected on the wire.
 func message(carrier int, tag byte, size int) (netty.Message, []byte) {
-	content := make([]byte, size)
-	for i := range content {
-		content[i] = vrt.Byte()
+	var content []byte
+	if size > 64 {
+		// a large message: zero filler between a tag and a symbolic last byte (fully symbolic content of 65 000 bytes
+		// makes the branch-free whole-wire comparison below a 65 000-term query)
+		content = make([]byte, size)
+		content[size-1] = vrt.Byte()
+	} else {
+		content = make([]byte, size)
+		for i := range content {
+			content[i] = vrt.Byte()
+		}
 	}
 	content[0] = tag
 	wire := append([]byte(nil), content...)
